@@ -146,9 +146,28 @@ func TestVerif_C14_select(t *testing.T) {
 			fold = "1"
 			count("fold")
 		}
-		s.Case("c14select "+verifh.Hex(tok), got+" fold="+fold, true, "", derived, fmt.Sprintf("NewCompressReader(%q) -> %s", tok, got))
+		// the list of codings the value denotes (RFC 9110 5.6.1: comma-separated, optional white space,
+		// empty elements ignored), computed here with the standard library and by the model
+		// (Req.Compress.Lines.codings): whatever gets a reader, or passes the EqualFold test, must be
+		// ONE coding as it stands (Req.Props.C14Lines.decoded_is_single_coding)
+		var codings []string
+		for _, e := range strings.Split(tok, ",") {
+			if e = strings.Trim(e, " \t"); e != "" {
+				codings = append(codings, e)
+			}
+		}
+		single := len(codings) == 1 && codings[0] == tok
+		ok := !(rd != nil || fold == "1") || single
+		if len(codings) > 1 {
+			count("codings>1")
+		}
+		human := fmt.Sprintf("NewCompressReader(%q) -> %s", tok, got)
+		if !ok {
+			human += fmt.Sprintf(" :: decoded although the value denotes the codings %q", codings)
+		}
+		s.Case("c14select "+verifh.Hex(tok), got+" fold="+fold+" codings="+verifh.HexList(codings), ok, "", derived, human)
 	}
-	for _, k := range []string{"sel:gzip", "sel:deflate", "sel:br", "sel:zstd", "sel:none", "fold"} {
+	for _, k := range []string{"sel:gzip", "sel:deflate", "sel:br", "sel:zstd", "sel:none", "fold", "codings>1"} {
 		if hist[k] == 0 {
 			t.Errorf("bucket %s not reached", k)
 		}
